@@ -307,3 +307,55 @@ func TestC08FailingUpdateTableLeavesNoTrace(t *testing.T) {
 		t.Errorf("v1: the failed UpdateTable left %d index(es)", n)
 	}
 }
+
+// C16: a :value placeholder that the request does not supply is rejected (before the fix 'v <> :missing' was true and the
+// conditional write went through, 'SET w = :nosuch' succeeded), through both clients.
+func TestC16UnsuppliedValueRejected(t *testing.T) {
+	ctx := context.Background()
+	c := v2.NewClient()
+	if err := v2.AddTable(ctx, c, "tbl", "h", ""); err != nil {
+		t.Fatal(err)
+	}
+	S := func(v string) v2types.AttributeValue { return &v2types.AttributeValueMemberS{Value: v} }
+	tbl := "tbl"
+	if _, err := c.PutItem(ctx, &dynamodb.PutItemInput{TableName: &tbl, Item: map[string]v2types.AttributeValue{"h": S("a"), "v": S("1")}}); err != nil {
+		t.Fatal(err)
+	}
+	rejected := func(what string, f func() error) {
+		defer func() {
+			if r := recover(); r != nil && !strings.Contains(fmt.Sprint(r), "not defined") {
+				t.Errorf("%s: %v", what, r)
+			}
+		}()
+		if err := f(); err == nil {
+			t.Errorf("%s was accepted", what)
+		}
+	}
+	cond := "v <> :missing"
+	rejected("v2 PutItem with a condition that uses an unsupplied :missing", func() error {
+		_, err := c.PutItem(ctx, &dynamodb.PutItemInput{TableName: &tbl, Item: map[string]v2types.AttributeValue{"h": S("a"), "v": S("2")}, ConditionExpression: &cond})
+		return err
+	})
+	ue := "SET w = :nosuch"
+	rejected("v2 UpdateItem that assigns an unsupplied :nosuch", func() error {
+		_, err := c.UpdateItem(ctx, &dynamodb.UpdateItemInput{TableName: &tbl, Key: map[string]v2types.AttributeValue{"h": S("a")}, UpdateExpression: &ue})
+		return err
+	})
+	o, err := c.GetItem(ctx, &dynamodb.GetItemInput{TableName: &tbl, Key: map[string]v2types.AttributeValue{"h": S("a")}})
+	if err != nil || len(o.Item) != 2 {
+		t.Errorf("the item changed: %v %v", o, err)
+	}
+	// a supplied value is still fine
+	if _, err := c.PutItem(ctx, &dynamodb.PutItemInput{TableName: &tbl, Item: map[string]v2types.AttributeValue{"h": S("a"), "v": S("2")}, ConditionExpression: &cond,
+		ExpressionAttributeValues: map[string]v2types.AttributeValue{":missing": S("x")}}); err != nil {
+		t.Errorf("a supplied value was rejected: %v", err)
+	}
+	c1 := v1.NewClient()
+	if err := v1.AddTable(c1, "tbl", "h", ""); err != nil {
+		t.Fatal(err)
+	}
+	rejected("v1 UpdateItem that assigns an unsupplied :nosuch", func() error {
+		_, err := c1.UpdateItem(&v1sdk.UpdateItemInput{TableName: v1aws.String("tbl"), Key: map[string]*v1sdk.AttributeValue{"h": {S: v1aws.String("a")}}, UpdateExpression: &ue})
+		return err
+	})
+}
